@@ -54,7 +54,7 @@ pub fn take_allocs() -> u64 {
     COUNT.with(|c| c.replace(0))
 }
 
-fn disarmed<R>(f: impl FnOnce() -> R) -> R {
+pub fn disarmed<R>(f: impl FnOnce() -> R) -> R {
     let was = ARMED.with(|a| a.replace(false));
     let r = f();
     ARMED.with(|a| a.set(was));
